@@ -75,6 +75,7 @@ def RMInv (env : Env) (h : Height) (rm : RoundMap) : Prop :=
 structure VCInv (env : Env) (vc : VoteCounter) : Prop where
   cur : RMInv env vc.cur vc.rounds
   fut : ∀ h rm, lookupA h vc.future = some rm → RMInv env h rm
+  q : vc.quorumVP = qOf (env.totalPower vc.cur)
 
 theorem PropOK_empty (env : Env) (h : Height) (r : Round) : PropOK env h r RoundData.empty := by
   intro p hp; simp [RoundData.empty] at hp
@@ -107,12 +108,12 @@ theorem withRoundData_inv (env : Env) (vc vc' : VoteCounter) (h : Height) (r : R
     · rename_i _ heq
       simp only [Option.some.injEq, Prod.mk.injEq] at hw
       obtain ⟨rfl, _⟩ := hw
-      refine ⟨⟨?_, hi.fut⟩, rfl, rfl, rfl⟩
+      refine ⟨⟨?_, hi.fut, hi.q⟩, rfl, rfl, rfl⟩
       subst heq
       exact RMInv_setR env _ _ r _ hi.cur (hupd _ (getD_PropOK env _ _ r hi.cur))
     · simp only [Option.some.injEq, Prod.mk.injEq] at hw
       obtain ⟨rfl, _⟩ := hw
-      refine ⟨⟨hi.cur, ?_⟩, rfl, rfl, rfl⟩
+      refine ⟨⟨hi.cur, ?_, hi.q⟩, rfl, rfl, rfl⟩
       intro h2 rm2 hl
       by_cases e : h2 = h
       · subst e
@@ -179,7 +180,7 @@ theorem hasFuturePrecommitQuorum_inv (env : Env) (vc : VoteCounter) (h : Height)
 theorem startNewHeight_inv (env : Env) (vc : VoteCounter) (hi : VCInv env vc) :
     VCInv env (vc.startNewHeight env) ∧ (vc.startNewHeight env).cur = vc.cur + 1 := by
   unfold VoteCounter.startNewHeight
-  refine ⟨⟨?_, ?_⟩, rfl⟩
+  refine ⟨⟨?_, ?_, rfl⟩, rfl⟩
   · simp only
     cases e : lookupA (vc.cur + 1) vc.future with
     | none => exact RMInv_nil env _
@@ -204,7 +205,7 @@ theorem startNewHeight_inv (env : Env) (vc : VoteCounter) (hi : VCInv env vc) :
       exact hi.fut h rm hl
 
 theorem new_inv (env : Env) (h : Height) : VCInv env (VoteCounter.new env h) :=
-  ⟨RMInv_nil env _, fun h rm hl => by simp [VoteCounter.new, lookupA] at hl⟩
+  ⟨RMInv_nil env _, fun h rm hl => by simp [VoteCounter.new, lookupA] at hl, rfl⟩
 
 theorem getProposal_ok (env : Env) (vc : VoteCounter) (hi : VCInv env vc) (r : Round) (p : Proposal)
     (hg : vc.getProposal r = some p) :
